@@ -64,7 +64,9 @@ type c13In struct {
 	plen           uint16
 }
 
-func (i c13In) hvf() [4]byte { return c13HVF(i.auth, i.flags, i.infoTS, i.ts, i.ct, i.srcIA, i.src, i.plen) }
+func (i c13In) hvf() [4]byte {
+	return c13HVF(i.auth, i.flags, i.infoTS, i.ts, i.ct, i.srcIA, i.src, i.plen)
+}
 
 func c13Inputs(p *rtr.Pkt, auth [16]byte) c13In {
 	plen := len(p.Payload)
@@ -360,7 +362,7 @@ func TestC13(t *testing.T) {
 											ve.res.Fast.SPPointer == vs.res.Fast.SPPointer+16)
 										if !same || ve.forwarded {
 											r.Violation("epic-differs-from-scion-on-defective-path:other", map[string]any{"case": c.Name + "|" + variant,
-												"epic": fmt.Sprintf("%s %d/%d ptr %d", dispName(ve.res.Fast.Disp), ve.res.Fast.SPType, ve.res.Fast.SPCode, ve.res.Fast.SPPointer),
+												"epic":  fmt.Sprintf("%s %d/%d ptr %d", dispName(ve.res.Fast.Disp), ve.res.Fast.SPType, ve.res.Fast.SPCode, ve.res.Fast.SPPointer),
 												"scion": fmt.Sprintf("%s %d/%d ptr %d", dispName(vs.res.Fast.Disp), vs.res.Fast.SPType, vs.res.Fast.SPCode, vs.res.Fast.SPPointer)})
 										} else {
 											r.Outcome("defective-path-same-as-scion")
